@@ -211,7 +211,7 @@ pub struct LinkWorld {
 
 const LPATHS: &[&str] = &["index", "a", "b", "d/a", "d/b", "d/e/a", "p/q/r", "d/index", "x/y"];
 const SPATHS: &[&str] = &["s/one", "lib/two", "d/three"];
-const TNAMES: &[&str] = &["t1", "t2", "t3", "toString", "constructor", "a-b"];
+const TNAMES: &[&str] = &["t1", "t2", "t3", "toString", "constructor", "a-b", "0"];
 
 fn spell(r: &mut Rng, from: &str, to: &str, suffix: &str) -> String {
     let dir: Vec<&str> = {
@@ -350,6 +350,8 @@ impl LinkWorld {
             match it {
                 Item::Include(_, src) => s.push_str(&format!("<include src=\"{}\"/>", src)),
                 Item::Is(n) => s.push_str(&format!("<template is=\"{}\"/>", n)),
+                // (a numeric name is computed as a number: the name is its string form)
+                Item::IsDyn(n) if n.parse::<u32>().is_ok() => s.push_str(&format!("<template is=\"{{{{ {} }}}}\"/>", n)),
                 Item::IsDyn(n) => s.push_str(&format!("<template is=\"{{{{ '{}' }}}}\"/>", n)),
                 Item::Wxs(k) => s.push_str(&format!("<text>{{{{ m{}.path }}}}</text>", k)),
             }
@@ -357,7 +359,12 @@ impl LinkWorld {
         s
     }
     pub fn script_source(&self, i: usize) -> String {
-        format!("exports.path = 'S[{}]'", self.scripts[i])
+        // (the text of a script is arbitrary: some end in a line comment without a line break)
+        if i % 2 == 1 {
+            format!("exports.path = 'S[{}]' // script {}", self.scripts[i], i)
+        } else {
+            format!("exports.path = 'S[{}]'", self.scripts[i])
+        }
     }
     /// the model's rendering of file i as root (texts in document order)
     pub fn model_render(&self, i: usize, out: &mut Vec<String>) {
@@ -480,6 +487,11 @@ pub fn run_link_explicit(w: &Value, execs: &[GExec]) -> LinkOut {
     let resp = with_worker(|wk| wk.call(json!({"kind": "link", "bundle": bundle, "roots": roots, "data": {}})));
     let resp = match resp {
         Ok(r) if r["status"] == "ok" => r,
+        // every source of a link world is well-formed: a bundle that cannot even be evaluated
+        // links nothing
+        Ok(r) if r["reason"].as_str().unwrap_or("").starts_with("bundle does not evaluate") => {
+            return viol("linked_bundle_does_not_evaluate", format!("the bundle of the group cannot be evaluated: {}", r["reason"].as_str().unwrap_or("")), None, stats);
+        }
         Ok(r) => {
             stats.add("discard.unexecutable_world", 1);
             return LinkOut { outcome: Outcome::Discard(format!("unexecutable: {}", r["reason"].as_str().unwrap_or(""))), stats, exec: None };
